@@ -335,6 +335,15 @@ Definition dsub_stuck (b : dbase) (c2s s2c : list bs) (tr : option (list N * lis
       (c && negb (o_c_ok o) && negb (o_c_cls o =? 1)) || (s && negb (o_s_ok o) && negb (o_s_cls o =? 1))
   end.
 
+(* 11: an endpoint completed although no ChangeCipherSpec record was among the records handed to it *)
+Definition has_ccs (recs : list bs) (idxs : list N) : bool :=
+  existsb (fun i => hd 0 (nth (N.to_nat i) recs []) =? 20) idxs.
+Definition dsub_no_ccs (c2s s2c : list bs) (tr : option (list N * list N)) (o : obs) : bool :=
+  match tr with
+  | None => false
+  | Some (to_s, to_c) => (o_c_ok o && negb (has_ccs s2c to_c)) || (o_s_ok o && negb (has_ccs c2s to_s))
+  end.
+
 Definition eval_case (c : case) : list N * list (N * N) :=
   match c with
   | TGroup suite recompute peers_ok c2s s2c base subs =>
@@ -365,6 +374,7 @@ Definition eval_case (c : case) : list N * list (N * N) :=
                             (map (fun x => (fst (fst x),
                                             let code := dsub_spec base (snd x) in
                                             if negb (code =? 0) then code
+                                            else if dsub_no_ccs c2s s2c (snd (fst x)) (snd x) then 11
                                             else if dsub_stuck b c2s s2c (snd (fst x)) (snd x) then 10 else 0)) subs) in
           (mism, (if bcode =? 0 then [] else [(first, bcode)]) ++ bad)
       end
